@@ -186,12 +186,20 @@ def check_case(ctx, kind, v, frames_list, model_tbls, obj=None, came_from=None):
         if [list(x) for x in mt] != tbl:
             ctx.diff("rle.runs", f"{kind}: real table {tbl} model {mt} for mask {rep['masks'][ti]}", rep)
     # decode twice with a dirtied allocator
-    outs = []
+    outs, keep = [], []
     for _ in range(2):
         dirty_heap(n, k)
         try:
             dec = A.klass(kind)._build(io.BytesIO(enc), obj.format.value)
-            outs.append(raw_tracks(kind, dec))
+            outs.append([np.array(x, copy=True) for x in raw_tracks(kind, dec)])
+            # ... and the caller then USES the decoded arrays: overwrites them in place. The next decode of the same bytes
+            # must not see that (no buffer handed out twice)
+            for it, _ in B.items_of(kind, dec):
+                for attr in B.TRACK_ARRAYS[kind]:
+                    arr = getattr(it, attr)
+                    if arr.flags.writeable:
+                        arr[...] = 7.25
+            keep.append(dec)
         except Exception as e:
             ctx.fail(f"{kind}: own encoding cannot be decoded: {type(e).__name__}: {e}", rep, ident=f"{kind} decode")
             return
